@@ -192,6 +192,10 @@ Proof.
   - (* WDryExec *)
     rewrite H0 in *. destruct (Q1 (or_intror eq_refl)) as [Qa Qb].
     split; [auto|]. split; [intros _; apply Q2; left; congruence|]. intuition.
+  - (* WCreateFail: an attempt that failed without a command *)
+    destruct Q3 as (Q3 & Q4 & Q5). rewrite H1.
+    split; [intros [X|X]; congruence|]. split; [intros _; apply Q2; left; congruence|].
+    split; [assumption|]. exists (outs (nd s i)). repeat split; auto; simpl; lia.
   - (* WExecEnd *)
     destruct Q3 as (Q3 & Q4 & Q5 & Q6). rewrite Q6.
     split; [intros [X|X]; congruence|]. split; [intros _; apply Q2; left; congruence|].
@@ -484,6 +488,6 @@ Qed.
 Lemma start_needs_starting c s i s' : step c s (WExecStart i) = Some s' -> ph (nd s i) = PStarting /\ ph (nd s' i) = PExec.
 Proof.
   cbn [step]. destruct (ph (nd s i)) eqn:E; try discriminate. intros H. split; [reflexivity|].
-  destruct ((i <? nsteps c) && negb (dry c) && negb (timedout s)); [|discriminate]. injection H as <-.
+  destruct ((i <? nsteps c) && negb (dry c) && negb (timedout s) && negb (create_fails c s i)); [|discriminate]. injection H as <-.
   unfold set_nd, upd. cbn [nd]. rewrite Nat.eqb_refl. reflexivity.
 Qed.
